@@ -50,7 +50,16 @@ Inductive case :=
       error, (3, _) NewUpstream failed, (4, _) panic; [intact] = the reply has
       the caller's id and question *)
 | CDial (url dial : list N) (servers : list (list N * N)) (b2 want : N)
-        (udp_at tcp_at : list N) (res : N * N) (intact : bool).
+        (udp_at tcp_at : list N) (res : N * N) (intact : bool)
+  (** real time: the UDP server sends its reply (flag byte [b2]) [d1] ms after
+      the query, the TCP server answers [d2] ms after reading the query, the
+      caller allows [deadline] ms; observed: what the caller got *)
+| CDelay (d1 d2 deadline : N) (cid qn qseed b2 : N) (res : ores)
+  (** query A (caller allows [dl_a] ms) then, as soon as A returned, query B
+      (allows [dl_b] ms) on one upstream; both UDP replies have TC; the TCP
+      server answers every query [delay] ms after reading it with a reply
+      derived from that query; observed: what A's and B's callers got *)
+| CAbandon (a b : N * N * N) (dl_a delay dl_b : N) (res_a res_b : ores).
 
 (** ** Messages *)
 
@@ -146,6 +155,34 @@ Definition agree_dial (url dial : list N) (servers : list (list N * N)) (b2 : N)
     end
   end.
 
+(** the timed servers: UDP reply without extra body, TCP reply derived from the query *)
+Definition timed_query (x : N * N * N) : bytes :=
+  let '(cid, qn, qseed) := x in query cid 1 qn qseed.
+Definition timed_udp_reply (w : bytes) (b2 : N) : bytes := reply_to w (get_id w) b2 128 0 0 0.
+Definition timed_tcp_reply (w : bytes) : bytes := reply_to w (get_id w) 132 128 1 4 (get_id w).
+
+Definition agree_delay (d1 d2 deadline cid qn qseed b2 : N) (res : ores) : bool :=
+  let q := timed_query (cid, qn, qseed) in
+  let udp := udp_exchange q 0 [timed_udp_reply (udp_wire_query q 0) b2] in
+  res_eqb (fst (udp_with_fallback_timed q deadline d1 udp d2
+                  (fun q' => tcp_read_reply (timed_tcp_reply q')))) res.
+
+(** A's caller either gave up (observed error) or, on a very slow machine,
+    still got its reply; B waits.  Replies by [rrun]. *)
+Definition agree_abandon (a b : N * N * N) (res_a res_b : ores) : bool :=
+  let qa := timed_query a in
+  let qb := timed_query b in
+  let gu := match res_a with OErr => true | _ => false end in
+  match rrun timed_tcp_reply rpool0 [EvExchange qa gu; EvExchange qb false] with
+  | [ra; Some rb] =>
+    match ra, res_a with
+    | None, OErr => true
+    | Some r, ORep n s0 => pair_eqb (sig r) (n, s0)
+    | _, _ => false
+    end && res_eqb (RReply rb) res_b
+  | _ => false
+  end.
+
 Definition agree (c : case) : bool :=
   match c with
   | CTrunc n seed b2 obs =>
@@ -158,6 +195,8 @@ Definition agree (c : case) : bool :=
                 (map snd steps)
   | CDial url dial servers b2 want udp_at tcp_at res intact =>
     agree_dial url dial servers b2 udp_at tcp_at res intact
+  | CDelay d1 d2 deadline cid qn qseed b2 res => agree_delay d1 d2 deadline cid qn qseed b2 res
+  | CAbandon a b dl_a delay dl_b res_a res_b => agree_abandon a b res_a res_b
   end.
 
 (** ** spec: the property's own reading of the observation, on raw bytes
@@ -228,6 +267,19 @@ Definition spec (c : case) : bool :=
     list_eqb N.eqb udp_at [want] && intact &&
     if tc_of b2 then list_eqb N.eqb tcp_at udp_at && pair_eqb res (1, want)
     else list_eqb N.eqb tcp_at [] && pair_eqb res (0, want)
+    (* delays well inside the caller's deadline (and the 6 s connection deadline):
+       TC => the caller gets the TCP reply, however late the two replies are *)
+  | CDelay d1 d2 deadline cid qn qseed b2 res =>
+    let qbody := gen_bytes qn qseed in
+    if (d1 + d2 + 5000 <? deadline) && (d2 <? 5000) then
+      if tc_of b2 then is_rep res (raw_msg cid 132 128 1 (qbody ++ gen_bytes 4 cid))
+      else is_rep res (raw_msg cid b2 128 0 qbody)
+    else true
+    (* B's caller gets the reply to B: B's id, B's question, the answer derived from B *)
+  | CAbandon a b dl_a delay dl_b res_a res_b =>
+    let '(cid, qn, qseed) := b in
+    if delay + 2000 <? dl_b then is_rep res_b (raw_msg cid 132 128 1 (gen_bytes qn qseed ++ gen_bytes 4 cid))
+    else true
   end.
 
 (** ** non-trivial: TC set somewhere, a flag byte other than the plain
@@ -246,4 +298,6 @@ Definition nontrivial (c : case) : bool :=
   | CPack h _ _ => h_tc h || negb (plain (flags_hi h))
   | CSession _ steps => existsb (fun p => step_nontrivial (fst p)) steps
   | CDial _ dial _ b2 _ _ _ _ _ => nonempty dial || tc_of b2
+  | CDelay d1 d2 _ _ _ _ b2 _ => tc_of b2 && (0 <? d1 + d2)
+  | CAbandon a b _ _ _ _ _ => negb (pair_eqb (fst a) (fst b))
   end.
